@@ -144,6 +144,19 @@ pub fn compare_retracers(
                         }
                     }
                 }
+                if full {
+                    for f in &u.extra_files {
+                        for &l in lines.iter().step_by(5) {
+                            st.evaluations += 1;
+                            let x = a.frame_line(c, m, l, Some(f));
+                            let y = b.frame_line(c, m, l, Some(f));
+                            if x != y {
+                                return Err(Fail::new("diff-frame-line", format!("remap_frame({c:?},{m:?},{l},file {f:?}): {an}={x:?} {bn}={y:?}"))
+                                    .with(json!({"query": {"kind": "frame-line", "class": c, "method": m, "line": l, "file": f}, an: frames_json(&x), bn: frames_json(&y)})));
+                            }
+                        }
+                    }
+                }
             }
         }
     }
@@ -289,6 +302,20 @@ pub fn check_lines_model(
                             format!("{}: remap_frame({c:?},{m:?},{l},{file:?}) = {got:?}, model says {want:?}", r.name()),
                         )
                         .with(json!({"impl": r.name(), "query": {"kind": "frame-line", "class": c, "method": m, "line": l, "file": file}, "got": frames_json(&got), "want": mframes_json(&want)})));
+                    }
+                }
+            }
+            if known {
+                // the frame's own file is data, whatever it looks like (the synthetic-class placeholder included)
+                for f in &u.extra_files {
+                    for &l in lines.iter().step_by(5) {
+                        st.evaluations += 1;
+                        let want = model.frames_by_line(c, m, l, Some(f.as_str()));
+                        let got = r.frame_line(c, m, l, Some(f.as_str()));
+                        if !same_frames(&got, &want) {
+                            return Err(Fail::new("model-frame-line", format!("{}: remap_frame({c:?},{m:?},{l},file {f:?}) = {got:?}, model says {want:?}", r.name()))
+                                .with(json!({"impl": r.name(), "query": {"kind": "frame-line", "class": c, "method": m, "line": l, "file": f}, "got": frames_json(&got), "want": mframes_json(&want)})));
+                        }
                     }
                 }
             }
